@@ -20,6 +20,7 @@ TRUSTED = ['rustc const evaluation + MIR construction (nightly)', 'pdb-facts dri
 
 
 def run(ctx):
+    shared.chain_link_markers_agree(ctx, '9m')
     F = ctx.F
     C = {k: v for k, v in F.consts.items()}
     def ci(name):
